@@ -69,7 +69,10 @@ fn tg_ok(f: &NetworkFilter, req: &Request) -> bool {
 
 /// Known-finding classes of DESIGN.md §2 that concern a (rule, request) pair.
 fn known_class(f: &NetworkFilter, req: &Request, url: &str) -> Option<&'static str> {
-    if !url.is_ascii() {
+    // F4 is about the separator `^` tested byte-wise against a multi-byte character: a rule without
+    // `^` that is lost on a non-ASCII URL is not in that class
+    let has_sep = f.raw_line.as_ref().map(|l| l.split('$').next().unwrap_or("").contains('^')).unwrap_or(true);
+    if !url.is_ascii() && has_sep {
         return Some("F4_non_ascii_url");
     }
     if url.contains('*') {
@@ -84,6 +87,17 @@ fn known_class(f: &NetworkFilter, req: &Request, url: &str) -> Option<&'static s
     }
     None
 }
+
+/// (rule, URL tail that the rule matches): words with letters outside ASCII, no `^`
+const NON_ASCII_RULES: &[(&str, &str)] = &[
+    ("/баннер.gif", "/баннер.gif"),
+    ("/werbung/größe_", "/werbung/größe_300.png"),
+    ("-реклама-", "/x-реклама-1.js"),
+    ("/广告/banner.", "/广告/banner.js"),
+    ("/añuncio.js$script", "/añuncio.js"),
+    ("/pub/publicité/", "/pub/publicité/1.js"),
+    ("/ad/größe/*/img", "/ad/größe/7/img.png"),
+];
 
 /// Lists dominated by modifier rules (removeparam / csp / redirect, with exceptions, tags and
 /// important) on one or two shared patterns, so that the hit SETS feeding the rewritten URL and the
@@ -307,6 +321,21 @@ fn main() {
             let base = lines[r.below(lines.len())].clone();
             lines.push(if base.contains('$') { format!("{},badfilter", base) } else { format!("{}$badfilter", base) });
         }
+        // words with letters outside ASCII in rules and (below) in the URLs asked about: separator-free
+        // rules, so that none of this is in the known class F4
+        let nonascii: Option<(&str, &str)> = if li % 5 == 2 {
+            let (rule, tail) = r.pick(NON_ASCII_RULES);
+            lines.push(rule.to_string());
+            if r.chance(1, 2) {
+                // fillers sharing the rule's ASCII words, so that the non-ASCII word is the rarest token
+                for w in rule.split(|c: char| !c.is_ascii_alphanumeric()).filter(|w| w.len() > 1) {
+                    lines.push(format!("/{}/x{}.", w, r.below(9)));
+                    lines.push(format!("/{}/y{}.", w, r.below(9)));
+                }
+            }
+            cs.stat("non_ascii_rule_lists");
+            Some((rule, tail))
+        } else { None };
         let rules: Vec<NetworkFilter> = lines.iter().filter_map(|l| parse(l)).collect();
         let dumps: Vec<FilterDump> = rules.iter().map(dump_filter).collect();
         let tagsets: [&[&str]; 3] = [&[], &["t1"], &["t1", "t2", "t3"]];
@@ -381,6 +410,12 @@ fn main() {
             let src = gen::source_url(&mut r);
             let mut ty = gen::request_type(&mut r);
             let mut url = url;
+            if let Some((_, tail)) = nonascii {
+                if r.chance(2, 3) {
+                    url = format!("https://{}/{}{}", r.pick(gen::HOSTS), r.pick(gen::VOCAB), tail);
+                    cs.stat("non_ascii_url_queries");
+                }
+            }
             if li % 3 == 0 {
                 // modifier lists: give removeparam something to remove and csp a document to protect
                 let names: Vec<String> = lines.iter().filter_map(|l| l.split("removeparam=").nth(1)).map(|x| x.split(',').next().unwrap_or("").to_string()).collect();
